@@ -13,7 +13,9 @@ the probe results: an entry that is `ignored` / an option that is dropped silent
 listed known finding is a VIOLATION whose replay is the probing call; an opt-out that does not
 work is a VIOLATION always.  The witnesses of the repaired findings (status "fixed": the silent
 options and ineffective opt-outs repaired by d0b630a, 08d4d98, b1f1430, a8af69f, 1dab744, 51ec724,
-4a36577, 612f87a, top-level `$not` by b0b21d1) are probed again on every run (`judge_fixed`).
+4a36577, 612f87a, top-level `$not` by b0b21d1, the three positions that validated nothing by
+6c55e75 / 1244abc / 6c1d985, two lazy expression contexts by fce7e55) are probed again on every
+run (`judge_fixed`).
 """
 import collections
 import json
@@ -84,10 +86,11 @@ def known_site_pairs():
 
 
 def known_lists():
-    """positions, (position, name) pairs and options listed as KNOWN findings.  An opt-out that
-    does not work has no list any more (every such finding is repaired in the library and
-    Props.C20.opt_out_is_honoured has no exception): it is a VIOLATION wherever it shows."""
-    pos, pairs, silent = [], [], []
+    """(position, name) pairs and options listed as KNOWN findings.  An opt-out that does not
+    work, and a position at which every unknown name is accepted (`ignored:<position>:*`), have no
+    list any more: every such finding is repaired in the library, Props.C20.opt_out_is_honoured
+    and unknown_raises have no exception, and either is a VIOLATION wherever it shows."""
+    pairs, silent = [], []
     for e in common.load_known('C20'):
         if e.get('status') != 'known':
             continue
@@ -97,17 +100,14 @@ def known_lists():
         if w['kind'] == 'vocab' and str(w['position']).startswith('site:'):
             continue
         if w['kind'] == 'vocab':
-            if w['name'] == '*':
-                pos.append(w['position'])
-            else:
+            if w['name'] != '*':      # an `ignored:<position>:*` entry excuses nothing
                 pairs.append((w['position'], w['name']))
         elif w['opted_out']:
             continue      # an `optout-ineffective:*` entry excuses nothing
         else:
             silent.append((w['cls'], w['method'], w['option']))
-    pos.sort(key=extract_vocab.POSITIONS.index)
     pairs.sort(key=lambda p: (extract_vocab.POSITIONS.index(p[0]), p[1]))
-    return pos, pairs, sorted(silent)
+    return pairs, sorted(silent)
 
 
 def regenerate(ctx):
@@ -115,7 +115,7 @@ def regenerate(ctx):
     T, entries, meta = extract_vocab.probe_vocab(ctx.seed)
     opts = extract_options.probe_options()
     pairs = extract_options.probe_pairs(opts)
-    kpos, kpairs, ksilent = known_lists()
+    kpairs, ksilent = known_lists()
     derived = extract_sites.derive_sites(T)
     site_entries = extract_sites.probe_sites(
         extract_vocab.Prober(T, extract_vocab.load_vocab()), meta['kinds'], derived,
@@ -123,7 +123,7 @@ def regenerate(ctx):
     changed = []
     for fname, text in (
             ('Tables.lean', gen_c20_lean.emit_tables(T)),
-            ('Vocab.lean', gen_c20_lean.emit_vocab(T, entries, kpos, kpairs)),
+            ('Vocab.lean', gen_c20_lean.emit_vocab(T, entries, kpairs)),
             ('Sites.lean', gen_c20_lean.emit_sites(T, derived, site_entries,
                                                    known_site_pairs())),
             ('Options.lean', gen_c20_lean.emit_options(opts, ksilent, pairs))):
@@ -173,15 +173,13 @@ def _name_rank(ctx, name):
     return 0
 
 
-def judge_vocab(ctx, entries, kpos, kpairs, ksites=()):
+def judge_vocab(ctx, entries, kpairs, ksites=()):
     """the property, stated directly on the probe results"""
     bad = []
     for e in entries:
         if e['disp'] != 'ignored':
             continue
-        if e['pos'] in kpos:
-            fid = 'ignored:%s:*' % e['pos']
-        elif (e['pos'], e['name']) in kpairs or \
+        if (e['pos'], e['name']) in kpairs or \
                 (e['pos'].startswith('site:') and (e['pos'][5:], e['name']) in ksites):
             fid = 'ignored:%s:%s' % (e['pos'], e['name'])
         else:
@@ -344,6 +342,7 @@ def random_name_sample(ctx, T, V, n):
     real = sorted(kinds)
     taken = set(real)
     for key in ('operatorMap', 'logicalOps', 'topLevelNI', 'fieldNI', 'updaters', 'updateInline',
+                'updateChecked',
                 'pushModifiers', 'stagesImpl', 'stagesNone', 'exprNI', 'groupingMap',
                 'groupInline', 'groupOperators'):
         taken.update(T[key])
@@ -465,14 +464,14 @@ def run(ctx, proof, driver_ok):
     st = getattr(ctx, 'c20', None) or regenerate(ctx)
     T, entries, meta, opts = st['T'], st['entries'], st['meta'], st['opts']
     V = extract_vocab.load_vocab()
-    kpos, kpairs, ksilent = known_lists()
+    kpairs, ksilent = known_lists()
     ksites = known_site_pairs()
     derived, site_entries = st['derived'], st['site_entries']
     info = site_info(derived)
     for e in site_entries:
         e['site_info'] = info[e['site']]
-    bad_vocab = judge_vocab(ctx, entries, kpos, kpairs)
-    bad_sites = judge_vocab(ctx, site_entries, kpos, kpairs, ksites)
+    bad_vocab = judge_vocab(ctx, entries, kpairs)
+    bad_sites = judge_vocab(ctx, site_entries, kpairs, ksites)
     site_list_problems = judge_site_list(ctx, derived)
     bad_opts = judge_options(ctx, opts, ksilent)
     pairs = st.get('pairs') or []
@@ -509,8 +508,8 @@ def run(ctx, proof, driver_ok):
                             e['site_info'] = info[e['site']]
                             extra_site_entries.append(e)
             mism_extra = compare_with_model(ctx, extra_entries, 'random')
-            judge_vocab(ctx, extra_entries, kpos, kpairs)
-            judge_vocab(ctx, extra_site_entries, kpos, kpairs, ksites)
+            judge_vocab(ctx, extra_entries, kpairs)
+            judge_vocab(ctx, extra_site_entries, kpairs, ksites)
             mism_sites = compare_sites_with_model(site_entries + extra_site_entries)
             model = {'available': True, 'table_entries_compared': len(entries),
                      'random_names': len(names), 'random_entries_compared': len(extra_entries),
@@ -631,7 +630,7 @@ def run(ctx, proof, driver_ok):
 
 def replay(ctx, path):
     e = json.load(open(path))
-    kpos, kpairs, ksilent = known_lists()
+    kpairs, ksilent = known_lists()
     if e.get('what') == 'vocab' and str(e.get('position', '')).startswith('site:'):
         now = extract_sites.probe_one(e['position'][5:], e['dispatcher_position'], e['name'])
         print(json.dumps(now and {k: now[k] for k in ('pos', 'base', 'name', 'disp', 'in_table',
@@ -640,7 +639,7 @@ def replay(ctx, path):
         if now is None:
             print(json.dumps({'note': 'the source no longer has this site', 'file': path}))
         else:
-            judge_vocab(ctx, [now], kpos, kpairs, known_site_pairs())
+            judge_vocab(ctx, [now], kpairs, known_site_pairs())
             if not ctx.violations and e.get('model') is not None and os.path.exists(wire.DRIVER):
                 for _, m in compare_sites_with_model([now]):
                     ctx.violation(dict(vocab_replay(now, 'correspondence broken'), model=m),
@@ -650,7 +649,7 @@ def replay(ctx, path):
         print(json.dumps({k: now[k] for k in ('pos', 'name', 'disp', 'in_table', 'errors',
                                               'returned', 'probe')}))
         ctx.c20 = {'meta': {'kinds': {}}}
-        judge_vocab(ctx, [now], kpos, kpairs)
+        judge_vocab(ctx, [now], kpairs)
         if not ctx.violations and e.get('model') is not None and os.path.exists(wire.DRIVER):
             out = wire.run_driver(model_lines([(now['pos'], now['name'])]))[0].strip()
             if out != now['disp']:
